@@ -11,7 +11,7 @@ CFG = {'p_coarse': 0.2, 'p_periodic': 0.2, 'T': (3, 8), 'n_assets': (2, 5), 'nod
        'freqs': ['h', 'h', 'd', '30min', '2h'], 'units': ['h', 'd', 'min'], 'tzs': [None, 'CET', 'US/Eastern'],
        'kinds': {'SimpleContract': 2, 'Contract': 2, 'Transport': 2, 'Storage': 3, 'MultiCommodityContract': 2, 'OrderBook': 2,
                  'ExtendedTransport': 2, 'ScaledAsset': 3, 'StructuredAsset': 2}}
-SPECIAL = ['Plant', 'CHPAsset', 'CHPAsset_with_min_load_costs', 'LinkedAsset']
+SPECIAL = ['Plant', 'CHPAsset', 'CHPAsset_with_min_load_costs', 'LinkedAsset', 'Portfolio_grid_starts_in_repeated_hour', 'Portfolio_grid_ends_in_repeated_hour']
 
 
 def run(ctx):
@@ -46,6 +46,10 @@ def run(ctx):
                 if isinstance(a.get(key), dict) and 'dates_as' not in a[key] and rng.random() < 0.5:
                     a[key]['dates_as'] = rng.choice(['datetime64[s]', 'datetime64[m]', 'datetime64[ns]', 'datetime64[ms]', 'DatetimeIndex', 'DatetimeIndex_aware'])
                     a[key]['as_array'] = rng.random() < 0.5
+                elif isinstance(a.get(key), dict) and 'dates_as' not in a[key] and sp['grid'].get('tz') and rng.random() < 0.6:
+                    a[key]['stamp_tz'] = rng.choice(['UTC', 'UTC', 'Etc/GMT-3'])      # zone-aware stamps in UTC / a fixed offset
+            if sp['grid'].get('tz') and (a.get('start') or a.get('end')) and a['kind'] not in ('OrderBook', 'StructuredAsset', 'ScaledAsset') and rng.random() < 0.5:
+                a['window_tz'] = rng.choice(['UTC', 'UTC', 'Etc/GMT-3'])
     # plants and CHP units from the generator: unit commitment parameters, ramp profiles (lists / numpy arrays), time-varying capacity,
     # a CHP declared without heat node
     plants = gen.gen_many_plants(ctx.seed, n // 3, dict(CFG, freqs=['h', '2h'], units=['h'], tzs=[None], T=(4, 8), p_profile=0.5, p_unaligned_end=0.0), 'c11p_')
